@@ -127,7 +127,7 @@ func buildCLIPlan(cc *CLICase) *cliPlan {
 	pl.page = fw.Pick(rng, []int{1, 2, 3, 1000})
 	pl.keep, pl.iog, pl.rwo, pl.overwrite = rng.Bool(), rng.Bool(), rng.Chance(1, 3), rng.Bool()
 	// target path: [A-Za-z0-9_.-], 0-2 dots, optional sub-directories
-	nm := fw.Pick(rng, []string{"out", "Target-1", "a_b", "x9"})
+	nm := fw.Pick(rng, []string{"out", "Target-1", "a_b", "x9", "snap", "building", "bgt_kpg", "sqlite", "v2"})
 	switch rng.Intn(4) {
 	case 0: // no extension
 	case 1:
